@@ -16,7 +16,7 @@ from hexital.utils.candles import (
     reading_period,
 )
 from hexital.utils.candlesticks import validate_candlesticktype
-from hexital.utils.indexing import round_values
+from hexital.utils.indexing import absindex, round_values
 from hexital.utils.timeframe import TimeFrame, validate_timeframe
 
 
@@ -203,6 +203,10 @@ class Indicator(ABC):
 
     def calculate_index(self, start_index: int, end_index: Optional[int] = None):
         """Calculate the TA values, will calculate a index range the Candles, will re-calculate"""
+        start_index = absindex(start_index, len(self.candles))
+        if start_index is None:
+            return
+
         end_index = end_index if end_index else start_index + 1
 
         self._calculate_sub_indicators(True, start_index, end_index)
